@@ -37,11 +37,18 @@ def run(ctx):
              "worker shuts down) on the real ServerWorker: nothing is served after a graceful stop was received, the queue is "
              "empty after every poll of a worker that is shutting down, and what was queued ends closed")
 
+    import srvload
+    srvload.run(ctx)
+
 
 WINV = ["T_C01_NoCallInShutdown", "T_C01_ShutdownDrainsQueue", "T_C01_DrainReleases"]
 
 
 def replay(ctx, path):
+    import json as _j
+    if _j.load(open(path))["replay"].get("mode") == "e2e-load":
+        import srvload
+        return srvload.replay(ctx, path)
     import json
     rp = json.load(open(path))["replay"]
     if any(i in WINV for i in (rp.get("invariants") or [])):
